@@ -107,7 +107,12 @@ const VEC_POS_OFFSET: usize = 5;
 // at most this value. This is due to the amount of storage available to track
 // the offset is usize - number of KIND bits and number of ORIGINAL_CAPACITY
 // bits.
+#[cfg(not(tokio_rs_bytes_verif_vecpos))]
 const MAX_VEC_POS: usize = usize::MAX >> VEC_POS_OFFSET;
+// Verification knob (off by default): a tiny limit makes the promote-to-shared branch
+// of `advance_unchecked`, unreachable on 64-bit targets, run for ordinary offsets.
+#[cfg(tokio_rs_bytes_verif_vecpos)]
+const MAX_VEC_POS: usize = 61;
 const NOT_VEC_POS_MASK: usize = 0b11111;
 
 #[cfg(target_pointer_width = "64")]
